@@ -187,7 +187,7 @@ impl Curve {
 
 //@item src/arrival/curve.rs :: impl Curve / fn largest_known_distance
     fn largest_known_distance(&self) -> /*+*/(r:/*-*/ Duration/*+*/)
-        requires self.cwf()
+        requires self.min_distance@.len() >= 1
         ensures r == self.min_distance[self.min_distance.len() - 1]/*-*/
     {
         *self.min_distance.last().unwrap()
